@@ -915,4 +915,213 @@ theorem parseInterRef_ev (hc : Ctx off w Pv ts) (h : GE Pv ts e s) {o : Nat} (to
           refine Sat.bind (Sat.perrE ?_)
           exact fin _ _ (h.err hc (one_label (hin'.tokensSpan hine))) rfl trivial
 
+abbrev InterOK (off : Nat) (w : List Char) (d : Option (Loc InterData)) : Prop :=
+  OptOK (fun d : Loc InterData => SpanOK off w d.span) d
+
+theorem parseInterRef_modseq_ev (hc : Ctx off w Pv ts) (h : GE Pv ts e s) {a : Tok} {rest : List Tok}
+    {o : Nat} (hr : RunIn off w o rest) (hm : ModSeq true (a :: rest)) :
+    Sat (parseInterRef (α := α) rest) s (fun r s' => GE Pv ts e s' ∧ s'.cur = s.cur ∧ ModSeq true r.2 ∧
+      (∀ t ∈ r.2, t ∈ rest) ∧ InterOK off w r.1 ∧ ∃ o', RunIn off w o' r.2) := by
+  refine Sat.mono (parseInterRef_ev hc h rest hr) ?_
+  intro r s1 hres
+  cases hm with
+  | tok _ _ hf hrest =>
+    have hhead : (rest.head?.map (·.kind)) ≠ some .openParen := by
+      cases rest with
+      | nil => simp
+      | cons x l =>
+        have := hrest.head_flag
+        intro h0
+        simp only [List.head?_cons, Option.map_some, Option.some.injEq] at h0
+        rw [h0, modifierFlag_openParen] at this; cases this
+    rcases hres with ⟨g1, c1, hd, ⟨h1, -⟩ | ⟨_, h2, -⟩⟩ | ⟨h2, -⟩
+    · rw [h1]; exact ⟨g1, c1, hrest, fun t ht => ht, hd, o, hr⟩
+    · exact absurd h2 hhead
+    · exact absurd h2 hhead
+  | ref _ o' c mid rest' _ ha ho hmid hcl hrest =>
+    have hfind := findIdx_ref (fun t => t.kind == .closeParen) o' c mid rest'
+      (by simp [ho]) hmid (by simp [hcl])
+    rcases hres with ⟨g1, c1, hd, ⟨-, h1⟩ | ⟨endPos, -, h2, h3⟩⟩ | ⟨-, h2⟩
+    · exfalso; apply h1; simp [ho]
+    · rw [hfind] at h2
+      simp only [Option.some.injEq] at h2
+      subst h2
+      have hsuf := hr.suffix (mid.length + 1 + 1)
+      have : List.drop (mid.length + 1 + 1) (o' :: (mid ++ c :: rest')) = rest' := by
+        simp [List.drop_append]
+      rw [this] at h3 hsuf
+      rw [h3]
+      exact ⟨g1, c1, hrest, fun t ht => by simp [ht], hd, _, hsuf⟩
+    · rw [hfind] at h2; cases h2
+
+theorem parseModifiersLoop_ev (hc : Ctx off w Pv ts) (span : Span) (hsp : SpanOK off w span) (ie : Bool)
+    (fuel : Nat) (mtoks : List Tok) (m : Modifiers) (d : Option (Loc InterData)) (h : GE Pv ts e s)
+    (hm : ModSeq ie mtoks) (hr : ∃ o, RunIn off w o mtoks) (hd : InterOK off w d) :
+    Sat (parseModifiersLoop (α := α) span ie fuel mtoks m d) s (fun r s' => GE Pv ts e s' ∧ s'.cur = s.cur ∧
+      (r.1.contains Modifiers.RECIPE = true →
+        m.contains Modifiers.RECIPE = true ∨ ∃ t ∈ mtoks, t.kind = .at) ∧ InterOK off w r.2) := by
+  induction fuel generalizing mtoks m d s with
+  | zero =>
+    unfold parseModifiersLoop
+    exact Sat.pure ⟨h, rfl, fun hc => Or.inl hc, hd⟩
+  | succ fuel ih =>
+    cases mtoks with
+    | nil =>
+      unfold parseModifiersLoop
+      exact Sat.pure ⟨h, rfl, fun hc => Or.inl hc, hd⟩
+    | cons tok rest =>
+      unfold parseModifiersLoop
+      have hflag := hm.head_flag
+      obtain ⟨f, hf⟩ := Option.isSome_iff_exists.mp hflag
+      simp only [hf]
+      refine Sat.bind (Sat.pure ?_)
+      have tail : ∀ (s1 : BP α) (rest' : List Tok) (d' : Option (Loc InterData)), GE Pv ts e s1 →
+          s1.cur = s.cur → ModSeq ie rest' → (∀ t ∈ rest', t ∈ rest) → (∃ o, RunIn off w o rest') →
+          InterOK off w d' →
+          Sat (if (decide (f ≠ 0) && m.contains f) = true then do
+                perr "duplicate-modifier" [span]
+                parseModifiersLoop (α := α) span ie fuel rest' m d'
+              else parseModifiersLoop span ie fuel rest' (m.insert f) d') s1
+            (fun r s' => GE Pv ts e s' ∧ s'.cur = s.cur ∧
+              (r.1.contains Modifiers.RECIPE = true →
+                m.contains Modifiers.RECIPE = true ∨ ∃ t ∈ tok :: rest, t.kind = .at) ∧
+              InterOK off w r.2) := by
+        intro s1 rest' d' g1 c1 hm' hsub hr' hd'
+        split
+        · refine Sat.bind (Sat.perrE ?_)
+          refine Sat.mono (ih rest' m d' (g1.err hc (one_label hsp)) hm' hr' hd') ?_
+          rintro r s2 ⟨g2, c2, hrr, hd2⟩
+          refine ⟨g2, c2.trans c1, fun hcc => ?_, hd2⟩
+          rcases hrr hcc with h1 | ⟨t, ht, hk⟩
+          · exact Or.inl h1
+          · exact Or.inr ⟨t, by simp [hsub t ht], hk⟩
+        · refine Sat.mono (ih rest' (m.insert f) d' g1 hm' hr' hd') ?_
+          rintro r s2 ⟨g2, c2, hrr, hd2⟩
+          refine ⟨g2, c2.trans c1, fun hcc => ?_, hd2⟩
+          rcases hrr hcc with h1 | ⟨t, ht, hk⟩
+          · rcases insert_contains_recipe m tok.kind f hf h1 with h2 | h2
+            · exact Or.inl h2
+            · exact Or.inr ⟨tok, by simp, h2⟩
+          · exact Or.inr ⟨t, by simp [hsub t ht], hk⟩
+      obtain ⟨o, hro⟩ := hr
+      have hrrest : RunIn off w tok.stop rest := hro.cons.2.2.2
+      try dsimp only
+      split
+      · rename_i hcnd
+        simp only [Bool.and_eq_true] at hcnd
+        have hie : ie = true := hcnd.2
+        subst hie
+        refine Sat.bind (Sat.mono (parseInterRef_modseq_ev hc h hrrest hm) ?_)
+        rintro r s1 ⟨g1, c1, hm1, hsub, hd1, hr1⟩
+        exact tail s1 r.2 r.1 g1 c1 hm1 hsub hr1 hd1
+      · rename_i hcnd
+        refine tail s rest d h rfl ?_ (fun t ht => ht) ⟨_, hrrest⟩ hd
+        cases hm with
+        | tok _ _ _ hrest => exact hrest
+        | ref _ o c mid rest' hi ha _ _ _ _ =>
+          exfalso; apply hcnd; simp [ha, hi]
+
+theorem parseModifiers_ev (hc : Ctx off w Pv ts) (mtoks : List Tok) (pos : Nat) (h : GE Pv ts e s)
+    (hm : ModSeq (e.has Gen.EXT_INTERMEDIATE_PREPARATIONS) mtoks) {o : Nat} (hr : RunIn off w o mtoks)
+    (hpos : Boundary off w pos) :
+    Sat (parseModifiers (α := α) mtoks pos) s (fun r s' => GE Pv ts e s' ∧ s'.cur = s.cur ∧
+      (r.flags.val.contains Modifiers.RECIPE = true → ∃ t ∈ mtoks, t.kind = .at) ∧
+      SpanOK off w r.flags.span ∧ InterOK off w r.inter) := by
+  unfold parseModifiers
+  split
+  · refine Sat.pure ⟨h, rfl, ?_, SpanOK.pos hpos, trivial⟩
+    intro hcc
+    have : Modifiers.empty.contains Modifiers.RECIPE = true := hcc
+    exact absurd this (by decide)
+  rename_i hne
+  have hne' : mtoks ≠ [] := by intro h0; apply hne; rw [h0]; rfl
+  have hsp := hr.tokensSpan hne'
+  dsimp only
+  refine Sat.bind (hasExt_sat h.g ?_)
+  refine Sat.bind (Sat.mono (parseModifiersLoop_ev hc _ hsp _ _ _ _ _ h hm ⟨_, hr⟩ trivial) ?_)
+  rintro r s1 ⟨g1, c1, hrr, hd⟩
+  refine Sat.pure ⟨g1, c1, fun hcc => ?_, hsp, hd⟩
+  rcases hrr hcc with h1 | h1
+  · exact absurd h1 (by decide)
+  · exact h1
+
+theorem parseAlias_ev (hc : Ctx off w Pv ts) (container : String) {toks : List Tok} {o : Nat}
+    (hr : RunIn off w o toks) (h : GE Pv ts e s) :
+    Sat (parseAlias (α := α) container toks o) s (fun r s' => GE Pv ts e s' ∧ s'.cur = s.cur ∧
+      TextOK off w r.1 ∧ OptOK (TextOK off w) r.2) := by
+  unfold parseAlias
+  refine Sat.bind (hasExt_sat h.g ?_)
+  dsimp only
+  split
+  · refine Sat.bind (bpText_sat hr.run ?_)
+    exact Sat.pure ⟨h, rfl, hr.text, trivial⟩
+  · rename_i i hi
+    have hfi : toks.findIdx? (fun t => t.kind == .or) = some i := by
+      split at hi
+      · exact hi
+      · cases hi
+    have hlt : i < toks.length := by
+      rw [List.findIdx?_eq_some_iff_getElem] at hfi
+      exact hfi.1
+    have hget : toks[i]? = some toks[i] := List.getElem?_eq_getElem hlt
+    obtain ⟨hr1, -, hb1, hb2, hr2⟩ := hr.split hget
+    simp only [hget, Option.getD_some]
+    refine Sat.bind (bpText_sat hr2.run ?_)
+    refine Sat.bind (Sat.get ?_)
+    apply Sat.bind
+    apply Sat.mono (Q := fun r s' => GE Pv ts e s' ∧ s'.cur = s.cur ∧ OptOK (TextOK off w) r)
+    · split
+      · refine Sat.bind (Sat.perrE ?_)
+        refine Sat.pure ⟨h.err hc (one_label ?_), rfl, trivial⟩
+        rw [getLast_getD_stop]
+        refine ⟨hb1, hr2.stop, ?_⟩
+        have := hr2.le
+        have : toks[i].start ≤ toks[i].stop := by simp [Tok.stop]
+        show toks[i].start ≤ lastStop toks[i].stop _
+        omega
+      · split
+        · refine Sat.bind (Sat.perrE ?_)
+          exact Sat.pure ⟨h.err hc (one_label ⟨hb1, hb2, by simp [Tok.stop]⟩), rfl, trivial⟩
+        · exact Sat.pure ⟨h, rfl, hr2.text⟩
+    rintro alias s1 ⟨g1, c1, ha⟩
+    refine Sat.bind (bpText_sat hr1.run ?_)
+    exact Sat.pure ⟨g1, c1, hr1.text, ha⟩
+
+theorem checkEmptyName_ev (hc : Ctx off w Pv ts) (container : String) (name : Text)
+    (hn : TextOK off w name) (h : GE Pv ts e s) :
+    Sat (checkEmptyName (α := α) container name) s (fun _ s' => GE Pv ts e s' ∧ s'.cur = s.cur) := by
+  unfold checkEmptyName
+  refine Sat.bind (Sat.get ?_)
+  split
+  · refine Sat.perrE ?_
+    exact ⟨h.err hc (one_label hn.1), rfl⟩
+  · exact Sat.pure ⟨h, rfl⟩
+
+theorem checkNoteTimer_ev (hc : Ctx off w Pv ts) (h : GE Pv ts e s) :
+    Sat (checkNoteTimer (α := α)) s (fun _ s' => GE Pv ts e s' ∧ s'.cur = s.cur) := by
+  unfold checkNoteTimer
+  apply Sat.bind
+  apply Sat.mono (Q := fun _ s' => GE Pv ts e s' ∧ s'.cur = s.cur)
+  · apply withRecover_sat
+    refine Sat.bind (Sat.mono (consumeK_ge _ h) ?_)
+    rintro r1 s1 ⟨g1, h1⟩
+    cases r1 with
+    | none => exact Sat.pure ⟨g1.setCur h.le, rfl⟩
+    | some o =>
+      obtain ⟨hop, -, c1⟩ := h1
+      refine Sat.bind (Sat.mono (untilK_ge _ g1) ?_)
+      rintro r2 s2 ⟨g2, h2⟩
+      cases r2 with
+      | none => exact Sat.pure ⟨g2.setCur h.le, rfl⟩
+      | some n =>
+        obtain ⟨c2, -, ⟨c, hcl, hck⟩, -⟩ := h2
+        refine Sat.bind (Sat.mono (bump_ge g2 hcl (by simpa using hck)) ?_)
+        rintro cp s3 ⟨rfl, g3, c3⟩
+        refine Sat.bind (Sat.pwarnE ?_)
+        refine Sat.pure ⟨(g3.warn hc (two_labels ?_ ?_)).setCur h.le, rfl⟩
+        · exact hc.wfi.span_toks hop hcl (by omega)
+        · exact SpanOK.pos (hc.wfi.tok hop).1
+  rintro _ s1 ⟨g1, c1⟩
+  exact Sat.pure ⟨g1, c1⟩
+
 end Cook
